@@ -1,8 +1,416 @@
-(* C36 — proofs. *)
+(* C36 — proofs, part 1: the well-formedness invariant, the abstraction to_slice, and
+   Update / Delete as map insert / remove. *)
 From Coq Require Import List NArith Arith Bool Lia.
 From Verif.Common Require Import Prefix.
 From Verif.C36 Require Import Model Spec.
 Import ListNotations.
 
-Lemma update_empty : forall w c v, to_slice (update w Leaf c v) = [(c, v)].
-Proof. reflexivity. Qed.
+Section W.
+  Variable w : nat.
+
+  Notation wfp := (wfp w).
+  Notation covers := (covers w).
+  Notation under := (under w).
+  Notation contains := (contains w).
+  Notation common_prefix := (common_prefix w).
+  Notation nthbit := (nthbit w).
+
+  (* subtree t may hang in branch b of a node with prefix c *)
+  Definition hangs (c : prefix) (b : bool) (t : trie) : Prop :=
+    match t with Leaf => True | Node k _ _ _ => under c b k = true end.
+
+  (* the invariant: prefixes well-formed, children in the right branch, a node without data
+     has two children *)
+  Fixpoint wf (t : trie) : Prop :=
+    match t with
+    | Leaf => True
+    | Node c d l r =>
+        wfp c /\ (d = None -> l <> Leaf /\ r <> Leaf) /\
+        hangs c false l /\ hangs c true r /\ wf l /\ wf r
+    end.
+
+  Definition tcov (t : trie) (p : prefix) : Prop :=
+    match t with Leaf => False | Node c _ _ _ => covers c p = true end.
+
+  Lemma hangs_covers : forall c b t p, wfp c -> wf t -> wfp p ->
+    hangs c b t -> tcov t p -> under c b p = true.
+  Proof.
+    intros c b [|k d l r] p Hc Ht Hp H T; simpl in *; [contradiction|].
+    apply (under_covers w c b k p); auto. apply Ht.
+  Qed.
+
+  Lemma slice_in : forall t e, wf t -> In e (to_slice t) -> wfp (fst e) /\ tcov t (fst e).
+  Proof.
+    induction t as [|c d l IHl r IHr]; intros e Ht Hin; simpl in *; [contradiction|].
+    destruct Ht as (Hc & Hd & Hl & Hr & Wl & Wr).
+    apply in_app_or in Hin. destruct Hin as [Hin|Hin].
+    - destruct d; simpl in Hin; [|contradiction]. destruct Hin as [<-|[]]. simpl.
+      split; auto. apply covers_refl; auto.
+    - apply in_app_or in Hin. destruct Hin as [Hin|Hin].
+      + destruct (IHl e Wl Hin) as [We Te]. split; auto.
+        pose proof (hangs_covers c false l (fst e) Hc Wl We Hl Te) as U.
+        apply under_spec in U. apply U.
+      + destruct (IHr e Wr Hin) as [We Te]. split; auto.
+        pose proof (hangs_covers c true r (fst e) Hc Wr We Hr Te) as U.
+        apply under_spec in U. apply U.
+  Qed.
+
+  Lemma slice_under_l : forall c d l r e, wf (Node c d l r) -> In e (to_slice l) ->
+    wfp (fst e) /\ under c false (fst e) = true.
+  Proof.
+    intros c d l r e (Hc & Hd & Hl & Hr & Wl & Wr) Hin.
+    destruct (slice_in l e Wl Hin) as [We Te]. split; auto.
+    apply (hangs_covers c false l); auto.
+  Qed.
+
+  Lemma slice_under_r : forall c d l r e, wf (Node c d l r) -> In e (to_slice r) ->
+    wfp (fst e) /\ under c true (fst e) = true.
+  Proof.
+    intros c d l r e (Hc & Hd & Hl & Hr & Wl & Wr) Hin.
+    destruct (slice_in r e Wr Hin) as [We Te]. split; auto.
+    apply (hangs_covers c true r); auto.
+  Qed.
+
+  Lemma slice_under : forall c d l r b e, wf (Node c d l r) -> In e (to_slice (child l r b)) ->
+    wfp (fst e) /\ under c b (fst e) = true.
+  Proof.
+    intros c d l r [|] e W Hin; simpl in Hin.
+    - eapply slice_under_r; eauto.
+    - eapply slice_under_l; eauto.
+  Qed.
+
+  Lemma slice_nonempty : forall t, wf t -> t <> Leaf -> to_slice t <> [].
+  Proof.
+    induction t as [|c d l IHl r IHr]; intros Ht Hn; [congruence|]. simpl.
+    destruct Ht as (Hc & Hd & Hl & Hr & Wl & Wr).
+    destruct d; simpl; [discriminate|].
+    destruct (Hd eq_refl) as [Nl Nr]. specialize (IHl Wl Nl).
+    destruct (to_slice l); [congruence|discriminate].
+  Qed.
+
+  (* ---------------------------------------------------------------- *)
+  (* finite-map helpers                                                *)
+
+  Lemma m_insert_app_lt : forall c v m1 m2,
+    (forall e, In e m1 -> prefix_ltb (fst e) c = true) ->
+    m_insert c v (m1 ++ m2) = m1 ++ m_insert c v m2.
+  Proof.
+    induction m1 as [|[k x] m1 IH]; intros m2 H; simpl; auto.
+    assert (L : prefix_ltb k c = true) by (apply (H (k, x)); left; auto).
+    rewrite (prefix_ltb_neq k c L), (prefix_ltb_asym k c L).
+    f_equal. apply IH. intros e He. apply H. right; auto.
+  Qed.
+
+  Lemma m_insert_front : forall c v m,
+    (forall e, In e m -> prefix_ltb c (fst e) = true) ->
+    m_insert c v m = (c, v) :: m.
+  Proof.
+    intros c v [|[k x] m] H; simpl; auto.
+    assert (L : prefix_ltb c k = true) by (apply (H (k, x)); left; auto).
+    rewrite prefix_eqb_sym, (prefix_ltb_neq c k L), L. reflexivity.
+  Qed.
+
+  Lemma m_insert_app_gt : forall c v m1 m2,
+    (forall e, In e m2 -> prefix_ltb c (fst e) = true) ->
+    m_insert c v (m1 ++ m2) = m_insert c v m1 ++ m2.
+  Proof.
+    induction m1 as [|[k x] m1 IH]; intros m2 H; simpl.
+    - apply m_insert_front; auto.
+    - destruct (prefix_eqb k c); auto. destruct (prefix_ltb c k); auto.
+      simpl. f_equal. apply IH; auto.
+  Qed.
+
+  Lemma m_remove_app : forall c m1 m2, m_remove c (m1 ++ m2) = m_remove c m1 ++ m_remove c m2.
+  Proof. intros; unfold m_remove; apply filter_app. Qed.
+
+  Lemma m_remove_absent : forall c m,
+    (forall e, In e m -> fst e <> c) -> m_remove c m = m.
+  Proof.
+    induction m as [|e m IH]; intros H; simpl; auto.
+    assert (fst e <> c) by (apply H; left; auto).
+    apply prefix_eqb_neq in H0. rewrite H0. simpl. f_equal. apply IH. intros; apply H; right; auto.
+  Qed.
+
+  (* ---------------------------------------------------------------- *)
+  (* order facts                                                       *)
+
+  Lemma under_ltb_parent : forall c b p, wfp c -> wfp p -> under c b p = true -> prefix_ltb c p = true.
+  Proof.
+    intros c b p Hc Hp U. apply under_spec in U. destruct U as (C & L & _).
+    apply (covers_ltb w); auto. intros ->. lia.
+  Qed.
+
+  Lemma under_neq : forall c b p, under c b p = true -> p <> c.
+  Proof. intros c b p U ->. apply under_spec in U. lia. Qed.
+
+  Lemma under_bit : forall c b p, under c b p = true -> nthbit (paddr p) (S (plen c)) = b.
+  Proof. intros c b p U. apply under_spec in U. apply U. Qed.
+
+  Lemma under_other : forall c b p, under c b p = true -> under c (negb b) p = false.
+  Proof.
+    intros c b p U. destruct (under c (negb b) p) eqn:E; auto.
+    apply under_bit in U. apply under_bit in E. rewrite U in E. destruct b; discriminate.
+  Qed.
+
+  (* ---------------------------------------------------------------- *)
+  (* Update                                                            *)
+
+  Lemma strict_cover_len : forall p q, wfp p -> wfp q -> covers p q = true -> p <> q -> plen p < plen q.
+  Proof.
+    intros p q Hp Hq C Ne. pose proof (covers_len w _ _ C).
+    destruct (Nat.eq_dec (plen p) (plen q)); [|lia].
+    exfalso. apply Ne. apply (covers_same_len w); auto.
+  Qed.
+
+  Ltac split4 := refine (conj _ (conj _ (conj _ _))).
+  Ltac wf_node := cbn [wf]; refine (conj _ (conj _ (conj _ (conj _ (conj _ _))))).
+
+  Lemma update_spec : forall v c, wfp c -> forall t, wf t ->
+    wf (update w t c v) /\
+    to_slice (update w t c v) = m_insert c v (to_slice t) /\
+    update w t c v <> Leaf /\
+    (forall p b, wfp p -> hangs p b t -> under p b c = true -> hangs p b (update w t c v)).
+  Proof.
+    intros v c Hc. induction t as [|nc d l IHl r IHr]; intros Ht.
+    - simpl. split4; auto; try discriminate.
+      wf_node; simpl; auto; discriminate.
+    - pose proof Ht as Ht0. destruct Ht as (Hn & Hd & Hl & Hr & Wl & Wr).
+      specialize (IHl Wl). specialize (IHr Wr).
+      destruct IHl as (IHl1 & IHl2 & IHl3 & IHl4). destruct IHr as (IHr1 & IHr2 & IHr3 & IHr4).
+      cbn [update].
+      destruct (prefix_eqb nc c) eqn:E.
+      { (* same CIDR: replace the data *)
+        apply prefix_eqb_eq in E. subst nc.
+        split4; auto; try discriminate.
+        - wf_node; auto. discriminate.
+        - cbn [to_slice]. destruct d as [x|]; simpl.
+          + rewrite prefix_eqb_refl. reflexivity.
+          + symmetry. apply m_insert_front. intros e He.
+            apply in_app_or in He. destruct He as [He|He].
+            * destruct (slice_under_l _ _ _ _ _ Ht0 He). eapply under_ltb_parent; eauto.
+            * destruct (slice_under_r _ _ _ _ _ Ht0 He). eapply under_ltb_parent; eauto. }
+      apply prefix_eqb_neq in E.
+      set (cp := common_prefix c nc).
+      assert (Hcp : wfp cp) by (apply common_prefix_wf; auto).
+      destruct (Nat.eqb (plen cp) (plen nc)) eqn:E1.
+      { (* nc strictly covers c: recurse *)
+        apply Nat.eqb_eq in E1.
+        assert (C : covers nc c = true).
+        { apply covers_common_prefix; auto. rewrite common_prefix_comm by auto. exact E1. }
+        assert (L : plen nc < plen c) by (apply strict_cover_len; auto).
+        rewrite E1.
+        assert (U : under nc (nthbit (paddr c) (S (plen nc))) c = true) by (apply covers_under; auto).
+        destruct (nthbit (paddr c) (S (plen nc))) eqn:B.
+        - split4; auto; try discriminate.
+          + wf_node; auto. intros D. destruct (Hd D). split; auto.
+          + cbn [to_slice]. rewrite IHr2. rewrite !app_assoc.
+            symmetry. apply m_insert_app_lt. intros e He.
+            apply in_app_or in He. destruct He as [He|He].
+            * destruct d; simpl in He; [|contradiction]. destruct He as [<-|[]]. simpl.
+              eapply under_ltb_parent; eauto.
+            * destruct (slice_under_l _ _ _ _ _ Ht0 He).
+              apply (branches_ltb w nc); auto.
+        - split4; auto; try discriminate.
+          + wf_node; auto. intros D. destruct (Hd D). split; auto.
+          + cbn [to_slice]. rewrite IHl2.
+            destruct d as [x|]; simpl.
+            * assert (Lt : prefix_ltb nc c = true) by (eapply under_ltb_parent; eauto).
+              rewrite (prefix_ltb_neq nc c Lt), (prefix_ltb_asym nc c Lt). f_equal.
+              symmetry. apply m_insert_app_gt. intros e He.
+              destruct (slice_under_r _ _ _ _ _ Ht0 He). apply (branches_ltb w nc); auto.
+            * symmetry. apply m_insert_app_gt. intros e He.
+              destruct (slice_under_r _ _ _ _ _ Ht0 He). apply (branches_ltb w nc); auto. }
+      apply Nat.eqb_neq in E1.
+      assert (Lc := common_prefix_len w c nc). fold cp in Lc. destruct Lc as [Lc1 Lc2].
+      assert (AllT : forall e, In e (to_slice (Node nc d l r)) -> wfp (fst e) /\ covers nc (fst e) = true).
+      { intros e He. apply (slice_in _ _ Ht0 He). }
+      destruct (Nat.eqb (plen cp) (plen c)) eqn:E2.
+      { (* c strictly covers nc: new parent *)
+        apply Nat.eqb_eq in E2.
+        assert (C : covers c nc = true) by (apply covers_common_prefix; auto).
+        assert (L : plen c < plen nc) by (apply strict_cover_len; auto).
+        rewrite E2.
+        assert (U : under c (nthbit (paddr nc) (S (plen c))) nc = true) by (apply covers_under; auto).
+        assert (INS : m_insert c v (to_slice (Node nc d l r)) = (c, v) :: to_slice (Node nc d l r)).
+        { apply m_insert_front. intros e He. destruct (AllT e He) as [We Ce].
+          apply (covers_ltb w); auto.
+          - apply (covers_trans w c nc); auto.
+          - intros EQ. rewrite <- EQ in Ce. apply (covers_len w) in Ce. lia. }
+        destruct (nthbit (paddr nc) (S (plen c))) eqn:B.
+        - split4; auto; try discriminate.
+          + wf_node; simpl; auto. discriminate.
+        - split4; auto; try discriminate.
+          + wf_node; simpl; auto. discriminate.
+          + rewrite INS. cbn [to_slice app]. rewrite app_nil_r. reflexivity. }
+      apply Nat.eqb_neq in E2.
+      (* disjoint: new intermediate node *)
+      assert (L1 : plen cp < plen c) by lia. assert (L2 : plen cp < plen nc) by lia.
+      assert (Sp := common_prefix_split w c nc Hc Hn L1 L2). fold cp in Sp.
+      assert (C1 : covers cp c = true) by (apply common_prefix_covers_l; auto).
+      assert (C2 : covers cp nc = true) by (apply common_prefix_covers_r; auto).
+      assert (Un : under cp (nthbit (paddr nc) (S (plen cp))) nc = true) by (apply covers_under; auto).
+      assert (Uc : under cp (negb (nthbit (paddr nc) (S (plen cp)))) c = true).
+      { apply under_spec. split; [auto|]. split; [auto|].
+        destruct (nthbit (paddr c) (S (plen cp))), (nthbit (paddr nc) (S (plen cp))); simpl; congruence. }
+      assert (WN : wf (Node c (Some v) Leaf Leaf)).
+      { wf_node; simpl; auto. discriminate. }
+      assert (HG : forall p b, wfp p -> hangs p b (Node nc d l r) -> under p b c = true -> under p b cp = true).
+      { intros p b Hp Hh Upc. simpl in Hh. apply under_common_prefix; auto. }
+      assert (AllU : forall e, In e (to_slice (Node nc d l r)) ->
+                wfp (fst e) /\ under cp (nthbit (paddr nc) (S (plen cp))) (fst e) = true).
+      { intros e He. destruct (AllT e He) as [We Ce]. split; auto.
+        apply (under_covers w cp _ nc); auto. }
+      destruct (nthbit (paddr nc) (S (plen cp))) eqn:B; simpl negb in Uc.
+      + split4; auto; try discriminate.
+        * wf_node; simpl; auto. intros _. split; discriminate.
+        * change (to_slice (Node cp None (Node c (Some v) Leaf Leaf) (Node nc d l r)))
+            with ((c, v) :: to_slice (Node nc d l r)).
+          symmetry. apply m_insert_front. intros e He. destruct (AllU e He).
+          apply (branches_ltb w cp); auto.
+      + split4; auto; try discriminate.
+        * wf_node; simpl; auto. intros _. split; discriminate.
+        * change (to_slice (Node cp None (Node nc d l r) (Node c (Some v) Leaf Leaf)))
+            with (to_slice (Node nc d l r) ++ [(c, v)]).
+          rewrite <- (app_nil_r (to_slice (Node nc d l r))) at 2.
+          rewrite m_insert_app_lt; [reflexivity|].
+          intros e He. destruct (AllU e He). apply (branches_ltb w cp); auto.
+  Qed.
+
+  (* ---------------------------------------------------------------- *)
+  (* Delete                                                            *)
+
+  Lemma hangs_child : forall p b c d l r b', wfp p -> wf (Node c d l r) ->
+    hangs p b (Node c d l r) -> hangs p b (child l r b').
+  Proof.
+    intros p b c d l r b' Hp W H. simpl in H.
+    destruct W as (Hc & Hd & Hl & Hr & Wl & Wr).
+    destruct b'; simpl.
+    - destruct r as [|k dk lk rk]; simpl; auto. simpl in Hr.
+      apply (under_covers w p b c k); auto. apply Wr.
+      apply under_spec in Hr. apply Hr.
+    - destruct l as [|k dk lk rk]; simpl; auto. simpl in Hl.
+      apply (under_covers w p b c k); auto. apply Wl.
+      apply under_spec in Hl. apply Hl.
+  Qed.
+
+  Lemma key_other_branch : forall nc d l r b' c e, wf (Node nc d l r) ->
+    In e (to_slice (child l r b')) -> nthbit (paddr c) (S (plen nc)) = negb b' -> fst e <> c.
+  Proof.
+    intros nc d l r b' c e W He B EQ.
+    destruct (slice_under _ _ _ _ _ _ W He) as [_ U]. rewrite EQ in U.
+    apply under_bit in U. rewrite U in B. destruct b'; discriminate.
+  Qed.
+
+  Lemma key_strict : forall nc d l r b' e, wf (Node nc d l r) ->
+    In e (to_slice (child l r b')) -> fst e <> nc.
+  Proof.
+    intros nc d l r b' e W He. destruct (slice_under _ _ _ _ _ _ W He) as [_ U].
+    eapply under_neq; eauto.
+  Qed.
+
+  Lemma m_remove_head : forall c (d : option N), m_remove c (match d return list (prefix * N) with Some v => [(c, v)] | None => [] end) = [].
+  Proof. intros c [x|]; simpl; auto. rewrite prefix_eqb_refl. reflexivity. Qed.
+
+  Lemma m_remove_head_ne : forall c nc (d : option N), nc <> c ->
+    m_remove c (match d return list (prefix * N) with Some v => [(nc, v)] | None => [] end) = match d with Some v => [(nc, v)] | None => [] end.
+  Proof. intros c nc [x|] Ne; simpl; auto. apply prefix_eqb_neq in Ne. rewrite Ne. reflexivity. Qed.
+
+  Lemma is_leaf_true : forall t, is_leaf t = true -> t = Leaf.
+  Proof. intros [|]; simpl; congruence. Qed.
+
+  Lemma delete_internal_spec : forall c, wfp c -> forall t, wf t ->
+    wf (delete_internal w t c) /\
+    to_slice (delete_internal w t c) = m_remove c (to_slice t) /\
+    (forall p b, wfp p -> hangs p b t -> hangs p b (delete_internal w t c)).
+  Proof.
+    intros c Hc. induction t as [|nc d l IHl r IHr]; intros Ht.
+    - simpl. auto.
+    - pose proof Ht as Ht0. destruct Ht as (Hn & Hd & Hl & Hr & Wl & Wr).
+      specialize (IHl Wl). specialize (IHr Wr).
+      destruct IHl as (IHl1 & IHl2 & IHl3). destruct IHr as (IHr1 & IHr2 & IHr3).
+      cbn [delete_internal].
+      destruct (contains nc (paddr c)) eqn:Ct; cbn [negb].
+      2:{ split; [auto|]. split; [|auto].
+          symmetry. apply m_remove_absent. intros e He EQ.
+          destruct (slice_in _ _ Ht0 He) as [_ T]. simpl in T. rewrite EQ in T.
+          unfold Prefix.covers in T. rewrite Ct, andb_false_r in T. discriminate. }
+      destruct (prefix_eqb c nc) eqn:E.
+      { apply prefix_eqb_eq in E. subst nc.
+        assert (RM : m_remove c (to_slice (Node c d l r)) = to_slice l ++ to_slice r).
+        { cbn [to_slice]. rewrite !m_remove_app, m_remove_head. simpl. f_equal.
+          - apply m_remove_absent. intros e He. apply (key_strict c d l r false e Ht0 He).
+          - apply m_remove_absent. intros e He. apply (key_strict c d l r true e Ht0 He). }
+        rewrite RM.
+        destruct l as [|kl dl ll rl].
+        { split; [auto|]. split; [reflexivity|].
+          intros p b Hp Hh. apply (hangs_child p b c d Leaf r true Hp Ht0 Hh). }
+        destruct r as [|kr dr lr rr].
+        { split; [auto|]. split; [simpl; rewrite !app_nil_r; reflexivity|].
+          intros p b Hp Hh. apply (hangs_child p b c d _ Leaf false Hp Ht0 Hh). }
+        split; [|split; [reflexivity|auto]].
+        wf_node; auto. intros _. split; discriminate. }
+      apply prefix_eqb_neq in E.
+      assert (Ne : nc <> c) by congruence.
+      unfold next_bit.
+      assert (RM : forall b', nthbit (paddr c) (S (plen nc)) = negb b' ->
+                 m_remove c (to_slice (child l r b')) = to_slice (child l r b')).
+      { intros b' B. apply m_remove_absent. intros e He. eapply key_other_branch; eauto. }
+      destruct (nthbit (paddr c) (S (plen nc))) eqn:B.
+      + (* right branch *)
+        destruct (is_leaf r) eqn:IL.
+        { apply is_leaf_true in IL. subst r.
+          split; [auto|]. split; [|auto].
+          cbn [to_slice]. rewrite !m_remove_app, (m_remove_head_ne c nc d Ne). simpl.
+          assert (R := RM false eq_refl); cbn [child] in R; rewrite R. reflexivity. }
+        assert (TS : m_remove c (to_slice (Node nc d l r)) =
+                     match d with Some v => [(nc, v)] | None => [] end ++ to_slice l ++ to_slice (delete_internal w r c)).
+        { cbn [to_slice]. rewrite !m_remove_app, (m_remove_head_ne c nc d Ne), IHr2.
+          assert (R := RM false eq_refl); cbn [child] in R; rewrite R. reflexivity. }
+        rewrite TS.
+        destruct (delete_internal w r c) as [|kn dn ln rn] eqn:DN.
+        * destruct d as [x|].
+          -- split; [|split; [reflexivity|auto]].
+             wf_node; simpl; auto. discriminate.
+          -- split; [auto|]. split; [simpl; rewrite app_nil_r; reflexivity|].
+             intros p b Hp Hh. apply (hangs_child p b nc None l r false Hp Ht0 Hh).
+        * assert (WF' : wf (Node nc d l (Node kn dn ln rn))).
+          { wf_node; auto; try (apply IHr3; auto).
+            intros D. destruct (Hd D). split; [auto|discriminate]. }
+          destruct d; (split; [exact WF'|split; [reflexivity|auto]]).
+      + (* left branch *)
+        destruct (is_leaf l) eqn:IL.
+        { apply is_leaf_true in IL. subst l.
+          split; [auto|]. split; [|auto].
+          cbn [to_slice]. rewrite !m_remove_app, (m_remove_head_ne c nc d Ne). simpl.
+          assert (R := RM true eq_refl); cbn [child] in R; rewrite R. reflexivity. }
+        assert (TS : m_remove c (to_slice (Node nc d l r)) =
+                     match d with Some v => [(nc, v)] | None => [] end ++ to_slice (delete_internal w l c) ++ to_slice r).
+        { cbn [to_slice]. rewrite !m_remove_app, (m_remove_head_ne c nc d Ne), IHl2.
+          assert (R := RM true eq_refl); cbn [child] in R; rewrite R. reflexivity. }
+        rewrite TS.
+        destruct (delete_internal w l c) as [|kn dn ln rn] eqn:DN.
+        * destruct d as [x|].
+          -- split; [|split; [reflexivity|auto]].
+             wf_node; simpl; auto. discriminate.
+          -- split; [auto|]. split; [reflexivity|].
+             intros p b Hp Hh. apply (hangs_child p b nc None l r true Hp Ht0 Hh).
+        * assert (WF' : wf (Node nc d (Node kn dn ln rn) r)).
+          { wf_node; auto; try (apply IHl3; auto).
+            intros D. destruct (Hd D). split; [discriminate|auto]. }
+          destruct d; (split; [exact WF'|split; [reflexivity|auto]]).
+  Qed.
+
+  Lemma delete_spec : forall c t, wfp c -> wf t ->
+    wf (delete w t c) /\ to_slice (delete w t c) = m_remove c (to_slice t).
+  Proof.
+    intros c [|nc d l r] Hc Ht; [simpl; auto|].
+    unfold delete.
+    destruct (prefix_eqb (common_prefix nc c) nc) eqn:E.
+    - destruct (delete_internal_spec c Hc _ Ht) as (A & B & _). auto.
+    - split; auto. symmetry. apply m_remove_absent. intros e He EQ.
+      destruct (slice_in _ _ Ht He) as [_ T]. simpl in T. rewrite EQ in T.
+      apply covers_common_prefix_eq in T; auto; [|apply Ht].
+      rewrite T, prefix_eqb_refl in E. discriminate.
+  Qed.
+
+End W.
